@@ -331,6 +331,7 @@ func genC03(g *gen) {
 	g.line("Definition gen_c03_ecdh_rejects_zero_remote_before_mult : bool := %s.", coqBool(zeroRemote))
 	g.line("Definition gen_c03_ecdh_rejects_zero_secret_after_mult : bool := %s.", coqBool(zeroSecret))
 	g.line("Definition gen_c03_ecdh_mult_args_priv_then_remote : bool := %s.", coqBool(scalarArgsOK))
+	genC03IDs(g)
 }
 
 func idParamIs(fd *ast.FuncDecl, params []string) bool {
